@@ -42,6 +42,14 @@ Definition verify_pubkey_signed_hash (pk sg hash : list Z) : sig_verdict :=
       else SigOK
   end.
 
+(* cipher.VerifySignatureRecoverPubKey(sig, hash): the per-signature test of
+   coin.Transaction.Verify — recovery succeeds and the signature is well formed *)
+Definition verify_signature_recover_pubkey (sg hash : list Z) : sig_verdict :=
+  match recover_pubkey hash sg with
+  | None => ErrInvalidSigPubKeyRecovery
+  | Some pk => if verify_signature hash sg pk then SigOK else ErrInvalidHashForSig
+  end.
+
 Section Address.
   (* ripemd160(sha256(sha256(pubkey))) is an oracle: the 20-byte key hash of a
      33-byte public key (cipher.PubKeyRipemd160) *)
